@@ -130,11 +130,12 @@ fn kernels_on(rng: &mut Rng, t: &mut Shards, dt: &DataType, max_len: usize) {
     let Ok(rows) = guarded(|| tok::rows(base.as_ref())) else { return };
     let ty = tok::type_str(dt);
     let fam = tok::family(dt);
+    let nulltoks = tok::null_tokens(dt);
     let zw = matches!(dt, DataType::FixedSizeBinary(0) | DataType::FixedSizeList(_, 0));
     for (mname, a) in mutate::realisations(rng, &base, 4) {
         // binding of the mutator
         let r2 = guarded(|| tok::rows(a.as_ref())).unwrap_or_default();
-        t.emit(json!({"op":"realise","type":ty,"fam":fam,"zw":zw,"via":mname,"rows":tok::strs(&rows),"err":false,"out":tok::strs(&r2)}));
+        t.emit(json!({"op":"realise","type":ty,"fam":fam,"zw":zw,"nulltoks":nulltoks,"via":mname,"rows":tok::strs(&rows),"err":false,"out":tok::strs(&r2)}));
 
         // filter
         let mlen = if rng.chance(15) && n > 0 { rng.below(n) } else { n };
@@ -145,17 +146,17 @@ fn kernels_on(rng: &mut Rng, t: &mut Shards, dt: &DataType, max_len: usize) {
             if opt { b = b.optimize() }
             b.build().filter(a.as_ref())
         });
-        finish(json!({"op":"filter","type":ty,"fam":fam,"zw":zw,"via":mname,"rows":tok::strs(&rows),"mask":mm,"optimize":opt}), o, t);
+        finish(json!({"op":"filter","type":ty,"fam":fam,"zw":zw,"nulltoks":nulltoks,"via":mname,"rows":tok::strs(&rows),"mask":mm,"optimize":opt}), o, t);
         if rng.chance(30) {
             let o = call(|| arrow_select::filter::filter(a.as_ref(), &m));
-            finish(json!({"op":"filter","type":ty,"fam":fam,"zw":zw,"via":mname,"rows":tok::strs(&rows),"mask":mm,"optimize":false}), o, t);
+            finish(json!({"op":"filter","type":ty,"fam":fam,"zw":zw,"nulltoks":nulltoks,"via":mname,"rows":tok::strs(&rows),"mask":mm,"optimize":false}), o, t);
         }
         if rng.chance(10) {
             // too long a predicate must be refused
             let extra = 1 + rng.below(3);
             let (m, mm) = mask(rng, n + extra, false);
             let o = call(|| arrow_select::filter::filter(a.as_ref(), &m));
-            finish(json!({"op":"filter","type":ty,"fam":fam,"zw":zw,"via":mname,"rows":tok::strs(&rows),"mask":mm,"optimize":false}), o, t);
+            finish(json!({"op":"filter","type":ty,"fam":fam,"zw":zw,"nulltoks":nulltoks,"via":mname,"rows":tok::strs(&rows),"mask":mm,"optimize":false}), o, t);
         }
 
         // take
@@ -163,32 +164,32 @@ fn kernels_on(rng: &mut Rng, t: &mut Shards, dt: &DataType, max_len: usize) {
         let oob = rng.chance(10);
         let (idx, im) = indices(rng, k, n, true, oob);
         let o = call(|| arrow_select::take::take(a.as_ref(), idx.as_ref(), Some(TakeOptions { check_bounds: true })));
-        finish(json!({"op":"take","type":ty,"fam":fam,"zw":zw,"via":mname,"rows":tok::strs(&rows),"idx":im,"itype":tok::type_str(idx.data_type())}), o, t);
+        finish(json!({"op":"take","type":ty,"fam":fam,"zw":zw,"nulltoks":nulltoks,"via":mname,"rows":tok::strs(&rows),"idx":im,"itype":tok::type_str(idx.data_type())}), o, t);
         if !oob {
             let o = call(|| arrow_select::take::take(a.as_ref(), idx.as_ref(), None));
-            finish(json!({"op":"take","type":ty,"fam":fam,"zw":zw,"via":mname,"rows":tok::strs(&rows),"idx":im,"itype":tok::type_str(idx.data_type())}), o, t);
+            finish(json!({"op":"take","type":ty,"fam":fam,"zw":zw,"nulltoks":nulltoks,"via":mname,"rows":tok::strs(&rows),"idx":im,"itype":tok::type_str(idx.data_type())}), o, t);
         }
 
         // nullif
         let (m, mm) = mask(rng, n, true);
         let o = call(|| arrow_select::nullif::nullif(a.as_ref(), &m));
-        finish(json!({"op":"nullif","type":ty,"fam":fam,"zw":zw,"via":mname,"rows":tok::strs(&rows),"mask":mm}), o, t);
+        finish(json!({"op":"nullif","type":ty,"fam":fam,"zw":zw,"nulltoks":nulltoks,"via":mname,"rows":tok::strs(&rows),"mask":mm}), o, t);
 
         // shift
         let k = rng.range(-(n as i64) - 2, n as i64 + 2);
         let o = call(|| arrow_select::window::shift(a.as_ref(), k));
-        finish(json!({"op":"shift","type":ty,"fam":fam,"zw":zw,"via":mname,"rows":tok::strs(&rows),"k":k}), o, t);
+        finish(json!({"op":"shift","type":ty,"fam":fam,"zw":zw,"nulltoks":nulltoks,"via":mname,"rows":tok::strs(&rows),"k":k}), o, t);
 
         // slice
         let o0 = rng.below(n + 1);
         let n0 = rng.below(n - o0 + 1);
         let o = call(|| Ok(a.slice(o0, n0)));
-        finish(json!({"op":"slice","type":ty,"fam":fam,"zw":zw,"via":mname,"rows":tok::strs(&rows),"o":o0,"n":n0}), o, t);
+        finish(json!({"op":"slice","type":ty,"fam":fam,"zw":zw,"nulltoks":nulltoks,"via":mname,"rows":tok::strs(&rows),"o":o0,"n":n0}), o, t);
 
         // dictionary garbage collection
         if matches!(dt, DataType::Dictionary(_, _)) {
             let o = call(|| { use arrow_array::cast::AsArray; arrow_select::dictionary::garbage_collect_any_dictionary(a.as_any_dictionary()) });
-            finish(json!({"op":"dictgc","type":ty,"fam":fam,"zw":zw,"via":mname,"rows":tok::strs(&rows)}), o, t);
+            finish(json!({"op":"dictgc","type":ty,"fam":fam,"zw":zw,"nulltoks":nulltoks,"via":mname,"rows":tok::strs(&rows)}), o, t);
         }
     }
 
@@ -205,7 +206,7 @@ fn kernels_on(rng: &mut Rng, t: &mut Shards, dt: &DataType, max_len: usize) {
         let pick = rng.below(rs.len());
         let chosen = rs[pick].1.clone();
         if guarded(|| tok::rows(chosen.as_ref())).ok().as_ref() != Some(&r) {
-            t.emit(json!({"op":"realise","type":ty,"fam":fam,"zw":zw,"via":rs[pick].0,"rows":tok::strs(&r),"err":false,
+            t.emit(json!({"op":"realise","type":ty,"fam":fam,"zw":zw,"nulltoks":nulltoks,"via":rs[pick].0,"rows":tok::strs(&r),"err":false,
                           "out":tok::strs(&guarded(|| tok::rows(chosen.as_ref())).unwrap_or_default())}));
             return;
         }
@@ -215,7 +216,7 @@ fn kernels_on(rng: &mut Rng, t: &mut Shards, dt: &DataType, max_len: usize) {
     let refs: Vec<&dyn Array> = arrs.iter().map(|a| a.as_ref()).collect();
     let colsj = Value::Array(cols.iter().map(|c| tok::strs(c)).collect());
     let o = call(|| arrow_select::concat::concat(&refs));
-    finish(json!({"op":"concat","type":ty,"fam":fam,"zw":zw,"cols":colsj}), o, t);
+    finish(json!({"op":"concat","type":ty,"fam":fam,"zw":zw,"nulltoks":nulltoks,"cols":colsj}), o, t);
 
     // interleave
     let nonempty: Vec<usize> = (0..narr).filter(|i| !cols[*i].is_empty()).collect();
@@ -229,7 +230,7 @@ fn kernels_on(rng: &mut Rng, t: &mut Shards, dt: &DataType, max_len: usize) {
             .collect();
         let pj: Vec<Value> = pairs.iter().map(|(a, b)| json!([a, b])).collect();
         let o = call(|| arrow_select::interleave::interleave(&refs, &pairs));
-        finish(json!({"op":"interleave","type":ty,"fam":fam,"zw":zw,"cols":colsj,"pairs":pj}), o, t);
+        finish(json!({"op":"interleave","type":ty,"fam":fam,"zw":zw,"nulltoks":nulltoks,"cols":colsj,"pairs":pj}), o, t);
     }
 
     // zip (array/array, scalar combinations)
@@ -250,7 +251,7 @@ fn kernels_on(rng: &mut Rng, t: &mut Shards, dt: &DataType, max_len: usize) {
             let db: &dyn Datum = if b_scalar { sb = Scalar::new(b.clone()); &sb } else { &b };
             arrow_select::zip::zip(&m, da, db)
         });
-        finish(json!({"op":"zip","type":ty,"fam":fam,"zw":zw,"mask":mm,"a":tok::strs(&ar),"as":a_scalar,"b":tok::strs(&br),"bs":b_scalar}), o, t);
+        finish(json!({"op":"zip","type":ty,"fam":fam,"zw":zw,"nulltoks":nulltoks,"mask":mm,"a":tok::strs(&ar),"as":a_scalar,"b":tok::strs(&br),"bs":b_scalar}), o, t);
     }
 
     // merge_n: indices say which array the next row comes from
@@ -274,7 +275,7 @@ fn kernels_on(rng: &mut Rng, t: &mut Shards, dt: &DataType, max_len: usize) {
         }
         let oi: Vec<Option<usize>> = idx.iter().map(|x| if *x < 0 { None } else { Some(*x as usize) }).collect();
         let o = call(|| arrow_select::merge::merge_n(&refs, &oi));
-        finish(json!({"op":"merge","type":ty,"fam":fam,"zw":zw,"cols":colsj,"idx":idx}), o, t);
+        finish(json!({"op":"merge","type":ty,"fam":fam,"zw":zw,"nulltoks":nulltoks,"cols":colsj,"idx":idx}), o, t);
     }
 }
 
